@@ -252,7 +252,44 @@ def else_tree_program(r, k):
             '30 PRINT "END" Z', "40 END", '100 PRINT "SUB"', "110 RETURN"]
 
 
+# ... and programs whose DEF is executed before the use but stands on a LATER line than the use: the single-pass checker
+# reads the call as an array cell (KNOWN FINDING late-def, DESIGN 8 / 11.3: listed open in known_findings.json)
+LATE_DEFS = [
+    ["10 GOSUB 100", "20 PRINT F(1,2)", "30 END", "100 DEF F(X) = X", "110 RETURN"],
+    ["10 GOTO 30", "20 PRINT FNA(1) : END", "30 DEF FNA(X,Y) = X + Y", "40 GOTO 20"],
+    ["10 GOTO 30", '20 PRINT FNB("S") : END', "30 DEF FNB(X) = X + 1", "40 GOTO 20"],
+    ["10 GOSUB 100", "20 A = G(1, 2, 3) + 1", "30 END", "100 DEF G(X, Y) = X * Y", "110 RETURN"],
+    ["10 GOTO 40", "20 IF H(1, 1) THEN PRINT 1 ELSE PRINT 2", "30 END", "40 DEF H(Q) = Q", "50 GOTO 20"],
+    # controls: the same shapes with calls that fit the definition (accepted and run), and a use before any DEF was run
+    ["10 GOSUB 100", "20 PRINT F(1)", "30 END", "100 DEF F(X) = X", "110 RETURN"],
+    ["10 GOTO 30", "20 PRINT FNA(1,2) : END", "30 DEF FNA(X,Y) = X + Y", "40 GOTO 20"],
+]
+
+
+def late_def_calls(lines):
+    """call sites NAME( on a line whose number is lower than the line that holds DEF NAME( : (line number, name) pairs"""
+    defs = {}
+    for l in lines:
+        no, _, rest = l.partition(" ")
+        for m in re.finditer(r"\bDEF\s*([A-Z][A-Z0-9]*\$?)\s*\(", re.sub(r'"[^"]*"', '""', rest), re.I):
+            if no.isdigit():
+                defs.setdefault(m.group(1).upper(), int(no))
+    out = []
+    for l in lines:
+        no, _, rest = l.partition(" ")
+        if not no.isdigit():
+            continue
+        body = re.sub(r'"[^"]*"', '""', rest)
+        body = re.sub(r"\bDEF\s*[A-Z][A-Z0-9]*\$?\s*\(", "DEF (", body, flags=re.I)
+        for name, at in defs.items():
+            if int(no) < at and re.search(r"(?<![A-Z0-9])" + re.escape(name) + r"\s*\(", body, re.I):
+                out.append((no, name))
+    return out
+
+
 def else_resume_program(r, k):
+    if k >= len(ELSE_RESUME) + ELSE_TREES:
+        return LATE_DEFS[k - len(ELSE_RESUME) - ELSE_TREES]
     if k >= len(ELSE_RESUME):
         return else_tree_program(r, k - len(ELSE_RESUME))
     lead, a, b, then = ELSE_RESUME[k]
@@ -269,11 +306,11 @@ def run_c06(chk):
     n = 160 if chk.tier == "quick" else 5000
     an_cases = []
     sessions = []
-    for i in range(n + len(ELSE_RESUME) + ELSE_TREES):
+    for i in range(n + len(ELSE_RESUME) + ELSE_TREES + len(LATE_DEFS)):
         r = chk.rng.fork(("c06", i))
         flavour = r.weighted([("typed", 35), ("faulty", 30), ("straight", 20), ("tree", 15)])
         if i >= n:
-            flavour = "else-resume"
+            flavour = "else-resume" if i - n < len(ELSE_RESUME) + ELSE_TREES else "late-def"
             lines = else_resume_program(r, i - n)
         elif flavour == "tree":
             # structured programs from the syntax-tree generator of C03: every IF/ELSE form with statements before and
@@ -321,7 +358,10 @@ def run_c06(chk):
                     line_no = last.outcome.rpartition("@")[2].split(".")[0]
                     src = next((l for l in lines if l.split(" ", 1)[0] == line_no), "?")
                     cls = "accepted-but-fails"
-                    # known class: a call site on a lower line number than the DEF it needs (executed earlier via GOSUB/GOTO)
+                    # known class: the failing line holds a call site on a lower line number than the DEF it needs
+                    # (the DEF was executed earlier, via GOSUB / GOTO); any other failure is a fresh violation
+                    if any(no == line_no for no, _ in late_def_calls(lines)):
+                        cls = "accepted-but-fails:late-def"
                     chk.fail(cls, f"analysis reports no error but the run fails with {last.outcome} at {src!r}",
                              {"file": text, "harness_commands": s.commands()})
                     break
